@@ -107,7 +107,42 @@ func recordRacePass(c *vc.Ctx) {
 		time.Sleep(500 * time.Millisecond)
 	}
 	st := strings.TrimSpace(string(status))
-	if !strings.HasPrefix(st, "done ") {
+	sec := "free-running -race pass"
+	if strings.HasPrefix(st, "crashed ") {
+		// A process of the pass died. The Go runtime kills the process on unsynchronised map access
+		// ("fatal error: concurrent map writes" etc., not recoverable): that is the library failing under
+		// concurrent use, i.e. a violation, not a harness error. Anything else is a harness error.
+		found := false
+		files, _ := filepath.Glob(filepath.Join(dir, "stderr.*"))
+		for _, f := range files {
+			b, _ := os.ReadFile(f)
+			txt := string(b)
+			i := strings.Index(txt, "fatal error: concurrent map")
+			if i < 0 {
+				continue
+			}
+			found = true
+			ex := txt[i:]
+			if len(ex) > 2000 {
+				ex = ex[:2000]
+			}
+			fn := "?"
+			for _, l := range strings.Split(ex, "\n") {
+				if strings.HasPrefix(l, "github.com/gmrtd/gmrtd/") && !strings.Contains(l, "verifsched") {
+					if k := strings.LastIndex(l, "("); k > 0 {
+						fn = strings.TrimPrefix(l[:k], "github.com/gmrtd/gmrtd/")
+					}
+					break
+				}
+			}
+			c.Outcome(sec, "process killed by the runtime: concurrent map access")
+			c.Violation(sec, "free-running/fatal-concurrent-map-access/"+fn, "the Go runtime killed the free-running process: unsynchronised concurrent map access inside the library while independent calls ran in parallel ("+filepath.Base(f)+"):\n"+ex, map[string]any{"stderr": f, "excerpt": ex}, nil)
+		}
+		if !found {
+			c.HarnessError("free-running -race pass crashed: %q (see %s/stderr.*)", st, dir)
+			return
+		}
+	} else if !strings.HasPrefix(st, "done ") {
 		c.HarnessError("free-running -race pass did not complete: %q", st)
 		return
 	}
@@ -116,7 +151,6 @@ func recordRacePass(c *vc.Ctx) {
 		c.HarnessError("reading race logs: %v", err)
 		return
 	}
-	sec := "free-running -race pass"
 	c.SecBound(sec, st+" (dynamic detection, not enumeration)")
 	info := map[string]any{"status": st, "race_reports": len(reps), "log_dir": dir}
 	c.Extra("race_pass", info)
